@@ -570,8 +570,12 @@ def real_class_programs(pid, regs, rng, out, nprog, tier, per=8, staged=None):
             rng.shuffle(statements)
             methods = [(i + 1, [c]) for i, c in enumerate(classes)]
             defs = []
+            # odd scenarios are the "one route for a whole method" scenarios: the probe of the class with most derived classes is
+            # defined for every class below it, all classes are concrete, so that several definitions with different next targets
+            # are attached the same way
+            rich = max(classes, key=lambda c: len([x for x in classes if c in anc[x]])) if si % 2 == 1 else None
             for m, vp in methods:
-                for d, c in enumerate([x for x in classes if vp[0] in anc[x] and rng.random() < 0.6]):
+                for d, c in enumerate([x for x in classes if vp[0] in anc[x] and (rng.random() < 0.6 or vp[0] == rich)]):
                     defs.append((m, d, [c]))
             vp2 = [rng.choice(classes), rng.choice(classes)]
             methods.append((n + 1, vp2))
@@ -583,7 +587,7 @@ def real_class_programs(pid, regs, rng, out, nprog, tier, per=8, staged=None):
                 if (m, tuple(vp)) not in seen:
                     seen.add((m, tuple(vp)))
                     dd.append((m, d, vp))
-            abstract = [c for c in classes if rng.random() < 0.25]
+            abstract = [c for c in classes if rng.random() < 0.25] if rich is None else []
             # signature shapes through the macro front end: non-virtual parameters anywhere, pointer and virtual_ptr parameters
             shapes = {}
             for m, vp in methods:
@@ -608,6 +612,21 @@ def real_class_programs(pid, regs, rng, out, nprog, tier, per=8, staged=None):
                 style["call"][m] = rng.choice(["fn", "class"])
             for m, d, vp in dd:
                 style["def"][(m, d)] = rng.choice(["plain", "box", "inline", "api_next", "api_next", "api_use", "api_own", "api_plain", "api_fun", "api_fun0", "member"])
+            # one family per scenario in turn gets a whole method attached the same way (state shared by mistake between the
+            # definitions of one method shows only when several of them use the same route)
+            same = None
+            if si % 2 == 1:
+                same = "api_next" if si == 1 else ["api_use", "box", "api_own", "api_fun", "inline", "plain"][(si // 2 + pi) % 6]
+            if same:
+                counts = {}
+                for m, d, vp in dd:
+                    counts[m] = counts.get(m, 0) + 1
+                big = max(counts, key=lambda m: counts[m]) if counts else None
+                if big is not None:
+                    style["meth"][big] = "free"     # (the core API routes need method_class, which cannot name a static method)
+                for m, d, vp in dd:
+                    if m == big:
+                        style["def"][(m, d)] = same
             scen.append((idx, classes, edges, statements, methods, dd, abstract, shapes, style))
         name = "real%d" % pi
         sources[name] = LE.program(name, scen, staged=bool(staged))
@@ -957,6 +976,68 @@ def check_C10(tier, seed):
                     assumptions=ASSUME_DYN, extra_cov={"flavours": FLAVOURS})
 
 
+def iso_vptr_script(rng, sid, pair):
+    """Two policies in one process hold the same classes; virtual_ptr handles of one must stay valid (direct ones too)
+    while the other registers, unregisters and updates."""
+    n = rng.randrange(3, 7)
+    classes, edges, _, _, abstract, kind = S.random_registry(rng, n, 0, 1, 0)
+    anc = S.anc_closure(edges, classes)
+    cov = {c: [x for x in classes if c in anc[x]] for c in classes}
+    chain = pick_chain(rng, classes, anc)
+    root = rng.choice(sorted(anc[chain[0]]))
+    s = S.Script(sid, [list(pair)])
+    nextm = {0: 3, 1: 3}
+    for p in (0, 1):
+        for k, c in enumerate(chain):
+            s.node(k, c, p=p)
+        for c, bases in S.presentation(rng.choice(["direct", "complete"]), classes, edges, rng):
+            s.cls(c, bases, p=p)
+        for m, sh in ((1, "P"), (2, "Q")):
+            s.method(m, sh, [root], p=p)
+            for d in range(rng.randrange(1, 4)):
+                s.defn(m, d, [rng.choice(cov[root])], p=p)
+        s.update(p=p)
+    handles = {0: [], 1: []}
+    hid = [0]
+
+    def make(p):
+        hid[0] += 1
+        k = rng.randrange(len(chain))
+        route = rng.choice(["ref", "final", "sh_lv", "mk", "sh_base", "ref"])
+        dyn = chain[k] if route in ("final", "mk") else rng.choice(cov[chain[k]])
+        s.vmake(hid[0], k, route, dyn, p=p)
+        handles[p].append((hid[0], route.startswith("sh") or route == "mk"))
+
+    def use(p):
+        for h, shared in handles[p]:
+            s.vcall(2 if shared else 1, [h], p=p)
+    for p in (0, 1):
+        for _ in range(rng.randrange(2, 5)):
+            make(p)
+    use(0)
+    use(1)
+    extra = {0: [(3, "R"), (4, "QQ")], 1: [(3, "R"), (4, "QQ")]}
+    for _ in range(rng.randrange(2, 5)):
+        q = rng.randrange(2)
+        x = rng.random()
+        if x < 0.5 and extra[q]:
+            m, sh = extra[q].pop(0)
+            s.method(m, sh, [root] * len(sh), p=q)
+            s.defn(m, 0, [rng.choice(cov[root]) for _ in sh], p=q)
+        else:
+            if nextm[q] > 9:
+                continue
+            nextm[q] += 1
+            s.defn(1, nextm[q], [rng.choice(cov[root])], p=q)
+        use(1 - q)                 # the other policy is untouched, between the registration ...
+        s.update(p=q)
+        use(1 - q)                 # ... and after the update
+        use(q)                     # its own direct handles are stale (skipped), its indirect ones are not
+        make(q)
+        use(q)
+    return s
+
+
 def check_C14(tier, seed):
     TCFG = "TraceYomm2_dispatch.cfg"
     t0 = time.time()
@@ -980,6 +1061,11 @@ def check_C14(tier, seed):
         # others must keep throwing
         scs.append(history_script_shapes("rnd%d-%d" % (npol, i), pairs if npol == 2 else triples, hist, mpool, npol, True))
     F.execute_and_validate("C14", exe, scs, out, "c14-rnd", TCFG)
+    # virtual_ptr validity belongs to one policy: handles of a policy (direct ones too) stay usable while the other one
+    # registers and updates
+    vpairs = [["fast", "vec"], ["ind", "indvec"], ["chk", "map"], ["ind", "fast"], ["vec", "indfast"], ["map", "vec"]]
+    scs = [iso_vptr_script(rng, "c14-vp-%d" % i, vpairs[i % len(vpairs)]) for i in range(120 if tier == "quick" else 2400)]
+    F.execute_and_validate("C14", exe, scs, out, "c14-vp", TCFG)
     # error handlers: policy 0 gets a returning handler; erroring calls on policy 1 must still be thrown,
     # then an erroring call on policy 0 aborts
     hsc = []
